@@ -220,11 +220,15 @@ def writeField (le : Bool) (w : Nat) (sec : Bytes) (off : Nat) (v : Int) : Bytes
 def readField (le : Bool) (w : Nat) (sec : Bytes) (off : Nat) : Nat := decNat le ((sec.drop off).take w)
 
 /-- one relocation applied to a section: `none` = the entry must be rejected (symbol index out of range,
-    wrong flavour, type not listed, or — MIPS64 — a composite R_MIPS_64).
-    For REL the addend is the field's previous contents. -/
+    wrong flavour, type not listed, or — MIPS64 — a composite entry: the packed `r_info` of the MIPS64 ELF
+    specification §2.9.1 names up to three relocation types applied in sequence and a second symbol; an entry
+    that uses any of `r_type2`, `r_type3`, `r_ssym` is a composite relocation, which is outside the supported
+    set whatever its first type is).
+    For REL the addend is the field's previous contents.  R_*_NONE (`keep`) has no field: nothing is read or
+    written and `r_offset` is immaterial. -/
 def applyAfterSym (a : Arch) (c : RelCfg) (rela : Bool) (s : Nat) (sec : Bytes) (e : RelEntry) : Option Bytes :=
   if !flavourOk a rela then none
-  else if c.packed && e.type = 18 && (e.type2 ≠ 0 || e.type3 ≠ 0 || e.ssym ≠ 0) then none
+  else if c.packed && (e.type2 ≠ 0 || e.type3 ≠ 0 || e.ssym ≠ 0) then none
   else
     match psabi a rela e.type with
     | none => none
@@ -247,18 +251,31 @@ def applyStd (a : Arch) (c : RelCfg) (rela : Bool) (syms : List Nat) : Bytes →
     | none => none
     | some sec' => applyStd a c rela syms sec' es
 
-/-- the domain of the application theorems: entries are layout-valid; every entry that is not rejected has
-    its field inside the section (8 bytes of room for R_*_NONE, which has no field of its own); MIPS64
-    composite entries (non-zero type2/type3/ssym) other than the rejected R_MIPS_64 ones are outside C08. -/
+/-- the domain of the application theorems: entries are layout-valid, the type is not the unclaimed R_ARM_CALL, and
+    every entry that relocates a field (a listed type other than R_*_NONE) has that field inside the section.
+    R_*_NONE entries carry any `r_offset`; MIPS64 entries carry any sub-fields (composites are rejected). -/
 def WFApplyOne (a : Arch) (c : RelCfg) (rela : Bool) (secLen : Nat) (e : RelEntry) : Bool :=
+  WFRel c rela e && !unclaimed a rela e.type &&
+  (match psabi a rela e.type with
+   | some (w, fm) => fm == .keep || decide (e.offset + w ≤ secLen)
+   | none => true)
+
+def WFApply (a : Arch) (c : RelCfg) (rela : Bool) (syms : List Nat) (secLen : Nat) (es : List RelEntry) : Bool :=
+  es.all (WFApplyOne a c rela secLen) && syms.all (fun s => decide (s < 2 ^ c.cls)) && decide (secLen < 2 ^ 63)
+
+/-- the narrower domain of the first three waves (kept so that the earlier statements remain visible: every theorem
+    stated with `WFApplyOne` / `WFApply` holds a fortiori with these, see `Props.C08.wfApply_of_room`): R_*_NONE needed
+    8 bytes of room at `r_offset` (the library used to read and rewrite a word there), and MIPS64 entries other than
+    R_MIPS_64 had to have zero `r_type2` / `r_type3` / `r_ssym` (the library used to ignore them). -/
+def WFApplyOneRoom (a : Arch) (c : RelCfg) (rela : Bool) (secLen : Nat) (e : RelEntry) : Bool :=
   WFRel c rela e && !unclaimed a rela e.type &&
   (if c.packed && e.type ≠ 18 then decide (e.type2 = 0) && decide (e.type3 = 0) && decide (e.ssym = 0) else true) &&
   (match psabi a rela e.type with
    | some (w, _) => decide (e.offset + (if w = 0 then 8 else w) ≤ secLen)
    | none => true)
 
-def WFApply (a : Arch) (c : RelCfg) (rela : Bool) (syms : List Nat) (secLen : Nat) (es : List RelEntry) : Bool :=
-  es.all (WFApplyOne a c rela secLen) && syms.all (fun s => decide (s < 2 ^ c.cls)) && decide (secLen < 2 ^ 63)
+def WFApplyRoom (a : Arch) (c : RelCfg) (rela : Bool) (syms : List Nat) (secLen : Nat) (es : List RelEntry) : Bool :=
+  es.all (WFApplyOneRoom a c rela secLen) && syms.all (fun s => decide (s < 2 ^ c.cls)) && decide (secLen < 2 ^ 63)
 
 /-! ### where the relocation tables of a loaded object are (gABI ch. 5 "Dynamic Section", "Program Header") -/
 
@@ -368,7 +385,8 @@ def dynTablesStd (c : RelCfg) (loads : List LoadSeg) (d : DynRelocs) : List (Str
    | some (t, rela) => [("JMPREL", .rel (fileOffset loads t.addr) t.size (relEntSize c rela) rela)]
    | none => [])
 
-/-- a table at virtual address 0 is outside the domain (the library treats a null pointer as "absent") -/
+/-- no table at virtual address 0 — the extra hypothesis of `dyn_reloc_tables_exact_partial` only (the library used
+    to treat a null table pointer as "absent"; since fix C09-table-pointer-zero it maps address 0 like any other) -/
 def WFDynRelocs (d : DynRelocs) : Bool :=
   (d.rel.all (·.addr ≠ 0)) && (d.rela.all (·.addr ≠ 0)) && (d.relr.all (·.addr ≠ 0)) && (d.jmprel.all (·.1.addr ≠ 0))
 
